@@ -190,6 +190,21 @@ CLAIMED.update({
               "5/C18", "partial: tgBoundariesToZeroCrossings and audioSplice are evaluated, not modelled; at non-dyadic rates only the outcome is judged (binary64 window bookkeeping)."),
 })
 
+CLAIMED.update({
+    "C19": _c("Proof: Props/C19.v shows that the point rows written for a KlattGrid tier (any number of points, any indentation, any "
+              "number tokens) are read back by the section parser as exactly the same (time, value) tokens in order, that "
+              "modifyValues / modifySubtiers is a map over the values (each value once, times and count untouched), that slicing a "
+              "file into sections at ascending indices loses no character (the pre-repair slicer is refuted by a witness), and "
+              "that the short text form of PointProcess / PitchTier / DurationTier objects round-trips span and every point token.  "
+              "_processSectionData, PointObject.save and the short-form readers are compared with the models inside Coq; the "
+              "whole-file clauses are decided on real files: the reference KlattGrid and synthetic KlattGrids written by an "
+              "independent writer are opened, optionally modified on a random subset of tiers (call counts, untouched tiers), "
+              "saved, reopened and compared bit for bit incl. hierarchy and spans, the saved text is a fixed point, and long and "
+              "short encodings of point objects open to equal objects.",
+              "Coq proof (scanner lemmas, list induction) + in-Coq differential correspondence + file-level evaluation against an independent writer",
+              "5/C19", "partial: the top-level KlattGrid reader (section discovery by keyword, container tiers) and _cleanNumericValues are evaluated, not modelled; repr()/float() are trusted (numbers are tokens)."),
+})
+
 PENDING = {}
 
 
